@@ -135,7 +135,9 @@ func (h *NFSProcedureHandler) handleRmdir(body io.Reader, reply *RPCReply, authC
 	}
 
 	targetPath := path.Join(node.path, name)
-	targetInfo, err := h.server.handler.fs.Stat(targetPath)
+	// Lstat: RMDIR of a symbolic link that points to a directory must fail with
+	// NOTDIR instead of removing the link.
+	targetInfo, err := h.server.handler.fs.Lstat(targetPath)
 	if err != nil {
 		var buf bytes.Buffer
 		xdrEncodeUint32(&buf, NFSERR_NOENT)
